@@ -39,6 +39,17 @@ ASSUMPTIONS = [
     "default overwrite='if_broken'; chunk lists are non-empty (a run without chunks is stored but unloadable also without any fault)",
 ]
 
+# tqdm guards its bookkeeping with a multiprocessing lock shared by every fork()ed process: a child that is made
+# to die while holding it would block all the others.  A plain thread lock is all this check needs.
+try:
+    import threading as _threading
+
+    import tqdm as _tqdm
+    _tqdm.tqdm.set_lock(_threading.RLock())
+    strax.utils.tqdm.set_lock(_threading.RLock())
+except Exception:  # noqa: BLE001
+    pass
+
 RUN = "0"
 DT = sl.DT_END
 # all scratch directories live on tmpfs when there is one: thousands of create / truncate / delete cycles on a
@@ -164,7 +175,7 @@ def do_make(scen, st):
     target = scen["keys"][-1]
     if scen["forked"]:
         return do_make_forked(scen, st)
-    kw = dict(processor=scen["proc"])
+    kw = dict(processor=scen["proc"], progress_bar=False)
     if scen["workers"]:
         kw["max_workers"] = scen["workers"]
     st.make(RUN, target, **kw)
@@ -346,7 +357,9 @@ def inspect(scen, root):
 
 
 def saver_ops(trace, key):
-    return [o for o in trace if o["key"] == key and o["role"] != "R"]
+    """operations of the save protocol on this key that were actually issued (the one a `die_before` fault
+    prevented is in the trace only as a marker)"""
+    return [o for o in trace if o["key"] == key and o["role"] != "R" and o["res"] != "die_before"]
 
 
 # ----------------------------------------------------------------------------- scenario preparation (cached per process)
@@ -445,10 +458,12 @@ def execute(case):
 
 
 # ----------------------------------------------------------------------------- model attempts derived per key
+RM = {"meta_first": "mf", "meta_last": "ml", "sorted": "li"}
+
+
 def parse_extra(ops):
     """chunk saves found in the handler part of a trace -> (extraStart, chunk specs)"""
     chunks, cur_i, cur_ids, first = [], None, None, None
-    n_seen = 0
     for s in ops:
         parts = s.split(":")
         if parts[0] == "write" and parts[2][0] == "t":
@@ -460,68 +475,12 @@ def parse_extra(ops):
             rows = ",".join(f"0:1:{i}" for i in (cur_ids or [])) or "-"
             chunks.append(f"0;0;{rows}")
             cur_i, cur_ids = None, None
-            n_seen += 1
     return (first or 0), chunks
-
-
-def attempt_spec(scen, key, step, base_ops_model, faulted_here, show):
-    """the `variant|recheck|rmorder|fault|extraStart|extra|abandoned|show` token for one attempt of one key,
-    or None when the real code made no attempt on this key (nothing to compare but the state)"""
-    rm = {"meta_first": "mf", "meta_last": "ml", "sorted": "li", "reverse": "li"}[scen["rm"]]
-    ft = step["fault"]
-    obs = saver_ops(step["trace"], key)
-    ops = [canon_op(o) for o in obs]
-    before = step["before"]
-    stored_before = before is not None and before[key]["find"] == "ok"
-    if not ops and not stored_before and not (before is not None and before[key]["find"] not in ("ok", "err DataNotAvailable")):
-        return None
-    fault, es, extra, abandoned = "none", 0, [], 0
-    if ft is not None and ops:
-        kind = ft["kind"]
-        fidx = next((i for i, o in enumerate(obs) if o["res"] in ("exc", "die_before") or (kind == "die_after" and i == len(obs) - 1 and faulted_here)), None)
-        if faulted_here:
-            if scen["det"]:
-                k = next(i for i, o in enumerate(obs) if (o["role"], o["j"]) == (ft["role"], ft["j"]))
-            else:
-                k = model_index(base_ops_model, ft["role"], ft["j"])
-            if kind == "exc":
-                fault = f"exc@{k}"
-                tail = ops[k + 1:] if scen["det"] else []
-                if scen["det"]:
-                    if not tail:
-                        abandoned = 1
-                    elif "exists:T" in tail:
-                        es, extra = parse_extra(tail[:len(tail) - 1 - tail[::-1].index("exists:T")])
-            else:
-                fault = ("db@%d" if kind == "die_before" else "da@%d") % k
-        else:
-            if step["outcome"] == "died":
-                fault = f"db@{len(ops)}"
-            else:
-                # an exception elsewhere: this saver was closed by the handler, abandoned, or had finished already
-                last_md = [s for s in ops if s.startswith("write:T:m:")]
-                closed_exc = bool(last_md) and last_md[-1].endswith("x") and ops[-1] == "mvdir:T:F"
-                complete = bool(last_md) and last_md[-1].endswith("e-") and ops[-1] == "mvdir:T:F"
-                if complete:
-                    fault = "none"
-                elif closed_exc or (last_md and last_md[-1].endswith("x")):
-                    close_start = len(ops) - 1 - ops[::-1].index("exists:T")
-                    if scen["proc"] == "single_thread":
-                        gf = fault_global_index(step["trace"])
-                        n_before = sum(1 for o in obs if o["g"] < gf)
-                    else:
-                        n_before = close_start
-                    es, extra = parse_extra(ops[n_before:close_start])
-                    fault = f"ab@{n_before}"
-                else:
-                    fault, abandoned = f"ab@{len(ops)}", 1
-        _ = fidx
-    return "|".join([scen["variant"], "1", rm, fault, str(es), "/".join(extra) or "-", str(abandoned), show])
 
 
 def fault_global_index(trace):
     for o in trace:
-        if o["res"] in ("exc",):
+        if o["res"] == "exc":
             return o["g"]
     return 10 ** 9
 
@@ -536,12 +495,71 @@ def model_index(model_ops, role, j):
     raise RuntimeError(f"address {role}{j} not in the model's op list")
 
 
-def real_result(step, key, faulted_here):
+def token(scen, fault="none", es=0, extra=(), abandoned=0, show=""):
+    lost = 0        # 1 would be the threaded processor before the D26 fix (an exception of the final close got lost)
+    return "|".join([scen["variant"], "1", RM[scen["rm"]], fault, str(es), "/".join(extra) or "-", str(abandoned), str(lost), show])
+
+
+def attempt_spec(scen, key, step, base_ops_model, faulted_here, show):
+    """the attempt token the driver gets for one `make` attempt on one key, or None when the real code did not
+    touch this key in that attempt (then only the state is compared).  For the key the fault was injected into,
+    the fault position comes from the fault's address; for every other key it is read off the observed trace
+    (closed by the handler after n operations / abandoned / died / finished normally)."""
+    ft = step["fault"]
+    obs = saver_ops(step["trace"], key)
+    ops = [canon_op(o) for o in obs]
+    before = step["before"]
+    if not ops and not faulted_here and (before is None or before[key]["find"] == "err DataNotAvailable"):
+        return None
+    fault, es, extra, abandoned = "none", 0, [], 0
+    if ft is not None and (ops or faulted_here):
+        kind = ft["kind"]
+        if faulted_here:
+            if not scen["det"]:
+                k = model_index(base_ops_model, ft["role"], ft["j"])
+            elif kind == "die_before":
+                k = len(ops)
+            elif kind == "die_after":
+                k = len(ops) - 1
+            else:
+                k = next(i for i, o in enumerate(obs) if o["res"] == "exc")
+            if kind == "exc":
+                fault = f"exc@{k}"
+                if scen["det"]:
+                    tail = ops[k + 1:]
+                    if not tail:
+                        abandoned = 1
+                    elif "exists:T" in tail:
+                        es, extra = parse_extra(tail[:len(tail) - 1 - tail[::-1].index("exists:T")])
+            else:
+                fault = ("db@%d" if kind == "die_before" else "da@%d") % k
+        elif step["outcome"] == "died":
+            fault = f"db@{len(ops)}"
+        else:
+            # an exception elsewhere: this saver was closed by the handler, abandoned, or had finished already
+            last_md = [s for s in ops if s.startswith("write:T:m:")]
+            if last_md and last_md[-1].endswith("e-") and ops[-1] == "mvdir:T:F":
+                fault = "none"
+            elif last_md and last_md[-1].endswith("x"):
+                close_start = len(ops) - 1 - ops[::-1].index("exists:T")
+                if scen["proc"] == "single_thread":
+                    gf = fault_global_index(step["trace"])
+                    n_before = sum(1 for o in obs if o["g"] < gf)
+                else:
+                    n_before = close_start
+                es, extra = parse_extra(ops[n_before:close_start])
+                fault = f"ab@{n_before}"
+            else:
+                fault, abandoned = f"ab@{len(ops)}", 1
+    return token(scen, fault, es, extra, abandoned, show)
+
+
+def real_result(step, key):
     oc = step["outcome"]
     before = step["before"]
     if before is not None and before[key]["find"] == "ok":
         return "stored"
-    if before is not None and before[key]["find"] not in ("ok", "err DataNotAvailable"):
+    if before is not None and before[key]["find"] != "err DataNotAvailable":
         return "corrupted" if oc.startswith("raised") else oc
     return oc.split(":")[0]
 
@@ -549,60 +567,15 @@ def real_result(step, key, faulted_here):
 def impl_line(scen, key, steps, shows, took):
     parts = []
     for step, show, tk in zip(steps, shows, took):
-        a = step["after"][key]
         if not tk:
             continue
+        a = step["after"][key]
         ops = [canon_op(o) for o in saver_ops(step["trace"], key)]
-        if not scen["det"]:
-            ops = group_roles(ops)
-        r = real_result(step, key, True) if "r" in show else "*"
+        r = real_result(step, key) if "r" in show else "*"
         o = (",".join(ops) or "-") if "o" in show else "*"
         ls = a["ls"] if "l" in show else "*"
         parts.append(f"{r} find={a['find']} load={a['load']} d12={a['d12']} ls={ls} ops={o}")
     return " ; ".join(parts)
-
-
-# ----------------------------------------------------------------------------- cases -> (impl, op, oracle)
-def build_rows(case, res, driver):
-    """one comparison row per data key: canonical implementation line, driver op line"""
-    p = prepare(case["scen"])
-    scen = p["scen"]
-    steps = res["steps"]
-    rows = []
-    for key in scen["keys"]:
-        faulted_key = case["key"] == key and case["role"] != "R"
-        pre_tokens = []
-        for ft, outcome, tr in p["pre"]:
-            st0 = dict(fault=ft, outcome=outcome, trace=tr, before=None)
-            tok = attempt_spec(scen, key, st0, None, ft["key"] == key, "")
-            if tok is not None:
-                pre_tokens.append(tok)
-        tokens, shows, took = [], [], []
-        for si, step in enumerate(steps):
-            ft = step["fault"]
-            here = ft is not None and ft["key"] == key and ft["role"] != "R"
-            show = ""
-            if ft is None:
-                show = "rl" if scen["det"] else "r"
-                if not scen["det"]:
-                    show = "r"
-                show += "o" if scen["det"] else ""
-            else:
-                show = ("r" if here else "") + ("ol" if scen["det"] else "") + ("o" if (not scen["det"] and ft["kind"] != "exc" and False) else "")
-            base_model = None
-            if here and not scen["det"]:
-                base_model = model_base_ops(driver, p, key, pre_tokens + tokens)
-            tok = attempt_spec(scen, key, step, base_model, here, show)
-            if tok is None and ft is None and step["outcome"].startswith("raised"):
-                tok = None
-            took.append(tok is not None)
-            shows.append(show)
-            if tok is not None:
-                tokens.append(tok)
-        impl = impl_line(scen, key, steps, shows, took)
-        op = "c04.run " + p["chunks"][key] + " " + " ".join(pre_tokens + tokens) if tokens else None
-        rows.append(dict(key=key, impl=impl, op=op, n_pre=len(pre_tokens), faulted=faulted_key, det=scen["det"]))
-    return rows
 
 
 _BASE_OPS = {}
@@ -611,73 +584,135 @@ _BASE_OPS = {}
 def model_base_ops(driver, p, key, prior_tokens):
     """the model's op list of a fault-free attempt after the given earlier attempts (thread-pool scenarios: the
     address of a fault is translated into an index of the model's eager schedule)"""
-    rm = {"meta_first": "mf", "meta_last": "ml", "sorted": "li", "reverse": "li"}[p["scen"]["rm"]]
-    tok = "|".join([p["scen"]["variant"], "1", rm, "none", "0", "-", "0", "o"])
-    line = "c04.run " + p["chunks"][key] + " " + " ".join(prior_tokens + [tok])
+    line = "c04.run " + p["chunks"][key] + " " + " ".join(prior_tokens + [token(p["scen"], show="o")])
     if line not in _BASE_OPS:
         out = driver.run([line])[0]
-        last = out.split(" ; ")[-1]
-        ops = last.split(" ops=")[1]
+        ops = out.split(" ; ")[-1].split(" ops=")[1]
         _BASE_OPS[line] = [] if ops in ("-", "*") else ops.split(",")
     return _BASE_OPS[line]
 
 
+def build_rows(case, res, driver):
+    """one comparison row per data key: canonical implementation line + driver op line (attempts of the
+    preparation, then the faulted attempt(s), then the clean retry)"""
+    p = prepare(case["scen"])
+    scen = p["scen"]
+    steps = res["steps"]
+    rows = []
+    for key in scen["keys"]:
+        pre_tokens = []
+        for ft, outcome, tr in p["pre"]:
+            st0 = dict(fault=ft, outcome=outcome, trace=tr, before=None)
+            here0 = ft["key"] == key and ft["role"] != "R"
+            base0 = model_base_ops(driver, p, key, pre_tokens) if (here0 and not scen["det"]) else None
+            tok = attempt_spec(scen, key, st0, base0, here0, "")
+            if tok is not None:
+                pre_tokens.append(tok)
+        tokens, shows, took = [], [], []
+        for step in steps:
+            ft = step["fault"]
+            here = ft is not None and ft["key"] == key and ft["role"] != "R"
+            if ft is None:
+                show = "rlo" if scen["det"] else "r"
+            else:
+                show = ("r" if here else "") + ("ol" if scen["det"] else "")
+            base_model = model_base_ops(driver, p, key, pre_tokens + tokens) if (here and not scen["det"]) else None
+            tok = attempt_spec(scen, key, step, base_model, here, show)
+            took.append(tok is not None)
+            shows.append(show)
+            if tok is not None:
+                tokens.append(tok)
+        impl = impl_line(scen, key, steps, shows, took)
+        op = ("c04.run " + p["chunks"][key] + " " + " ".join(pre_tokens + tokens)) if tokens else None
+        rows.append(dict(key=key, impl=impl, op=op, n_pre=len(pre_tokens)))
+    return rows
+
+
+# ----------------------------------------------------------------------------- oracle (independent of the model)
+D12_TAG = "[D12-state: final directory exists, metadata file absent, reached by a fault inside rmtree of the broken final directory]"
+D26_TAG = "[D26-state: threaded processor, exception inside the final Saver.close() of save_from, data left in _temp and reported unavailable]"
+
+
+def fault_op(step):
+    ft = step["fault"]
+    if ft is None:
+        return None
+    for o in step["trace"]:
+        if (o["key"], o["role"], o["j"]) == (ft["key"], ft["role"], ft["j"]):
+            return o
+    return None
+
+
+def reached_by_rmtree_of_broken(steps, key):
+    """was some fault so far injected into FileSaver.__init__'s rmtree of this key's final directory?"""
+    for st in steps:
+        o = fault_op(st)
+        if o is not None and o["key"] == key and o["func"] == "FileSaver.__init__" and o["dirkind"] == "final" \
+                and o["name"] in ("listdir", "unlink", "rmdir"):
+            return True
+    return False
+
+
+def in_final_close(step):
+    """the injected exception hit an operation of FileSaver._close reached on the normal path (no exception
+    had occurred before it in this attempt)"""
+    o = fault_op(step)
+    if o is None or step["fault"]["kind"] != "exc":
+        return False
+    first_exc = next((x for x in step["trace"] if x["res"] == "exc"), None)
+    if first_exc is None or first_exc["g"] != o["g"]:
+        return False
+    return any(x["key"] == o["key"] and x["func"] == "FileSaver._close" and x["g"] < o["g"] and x["role"] != "R"
+               for x in step["trace"]) or o["func"] == "FileSaver._close"
+
+
 def oracle_case(case, res):
-    """the property's own wording on what the real code did; returns None or a message"""
+    """the property's own wording on what the real code did.  Returns None or a message; messages that describe
+    one of the two known defect states carry a tag the known-findings file is keyed on, and they are only
+    reported on their own (any other failure in the same case takes precedence and is reported untagged)."""
     p = prepare(case["scen"])
     scen = p["scen"]
     ref = p["ref"]
     steps = res["steps"]
-    msgs = []
+    target = scen["keys"][-1]
+    plain, tagged = [], []
     for si, step in enumerate(steps):
         ft = step["fault"]
-        tag = "after the fault" if ft is not None else "after the retry"
+        tag = f"after attempt {si} ({'fault ' + ft['kind'] if ft else 'clean retry'})"
+        corrupted = False
         for key in scen["keys"]:
             a = step["after"][key]
             if a["find"] not in ("ok", "err DataNotAvailable"):
-                why = d12_reason(step, key, a, steps[:si + 1])
-                msgs.append(f"{tag}: is_stored({key}) raised {a['find'][4:]} instead of reporting unavailable{why}")
+                corrupted = True
+                msg = f"{tag}: is_stored({key}) raised {a['find'][4:]} instead of reporting the data unavailable"
+                if a["d12"] and a["find"] == "err DataCorrupted" and reached_by_rmtree_of_broken(steps[:si + 1], key):
+                    tagged.append(msg + " " + D12_TAG)
+                else:
+                    plain.append(msg + f" [state: listing {a['ls']}]")
                 continue
             if a["find"] == "ok":
                 if not a["load"].startswith("ok "):
-                    msgs.append(f"{tag}: {key} is reported stored but loading fails with {a['load']}")
+                    plain.append(f"{tag}: {key} is reported stored but loading fails with {a['load']}")
                 elif a["rows"] != ref[key]["rows"]:
-                    msgs.append(f"{tag}: {key} is reported stored but its rows differ from the fault-free result")
-            elif ft is None:
-                msgs.append(f"{tag}: {key} is still unavailable (find={a['find']})")
+                    plain.append(f"{tag}: {key} is reported stored but its rows differ from the fault-free result")
+            elif ft is None and (key == target or saver_ops(step["trace"], key)):
+                # the request was for the last key of the graph; an intermediate type only has to be there if this
+                # attempt set out to save it
+                plain.append(f"{tag}: {key} is still unavailable (find={a['find']})")
         if ft is None:
-            if step["outcome"] != "success" and not any("is_stored" in m for m in msgs):
-                msgs.append(f"the retry did not succeed: {step['outcome']}")
-        else:
-            wrote = ft["role"] != "R"
-            if ft["kind"] == "exc" and wrote and step["outcome"] == "success" and fired(step):
-                msgs.append(f"an I/O error on a write path ({ft['key']} {ft['role']}{ft['j']}) was reported to the caller as success")
-    return "; ".join(msgs) if msgs else None
-
-
-def fired(step):
-    return any(o["res"] == "exc" for o in step["trace"])
-
-
-def d12_reason(step, key, a, history):
-    """describe the state when it is the D12 one, so that the known-finding entry can be keyed on it"""
-    if not a["d12"]:
-        return " [state: metadata present]"
-    for h in reversed(history):
-        for o in h["trace"]:
-            if o["res"] in ("exc", "die_before", "ok") and h["fault"] is not None:
-                pass
-        ft = h["fault"]
-        if ft is None:
-            continue
-        hit = [o for o in h["trace"] if o["key"] == ft["key"] and o["role"] == ft["role"] and o["j"] == ft["j"]]
-        if hit and ft["key"] == key:
-            o = hit[0]
-            inside = o["func"] == "FileSaver.__init__" and o["dirkind"] == "final" and o["name"] in ("unlink", "rmdir", "listdir")
-            if inside:
-                return (" [state: final directory exists, metadata file absent; reached by a fault inside rmtree of the broken"
-                        f" final directory: {ft['kind']} at {o['name']} {sname(o['fname']) if o['fname'] else ''}".rstrip() + "]")
-    return " [state: final directory exists, metadata file absent; NOT reached through rmtree of broken data]"
+            if step["outcome"] != "success" and not corrupted:
+                plain.append(f"{tag}: the retry did not succeed ({step['outcome']})")
+        elif ft["kind"] == "exc" and ft["role"] != "R" and step["outcome"] == "success" and any(o["res"] == "exc" for o in step["trace"]):
+            o = fault_op(step)
+            msg = (f"{tag}: an I/O error on a write path ({ft['key']} {ft['role']}{ft['j']}: {o['name']} in {o['func']}) was reported "
+                   "to the caller as success")
+            if scen["proc"] == "threaded_mailbox" and in_final_close(step) and step["after"][ft["key"]]["find"] == "err DataNotAvailable":
+                tagged.append(msg + " " + D26_TAG)
+            else:
+                plain.append(msg)
+    if plain:
+        return "; ".join(plain)
+    return "; ".join(tagged) if tagged else None
 
 
 # ----------------------------------------------------------------------------- driver of the whole check
@@ -694,92 +729,91 @@ def run_cases(cases, jobs):
     if not cases:
         return []
     import multiprocessing as mp
-    ctxm = mp.get_context("fork")
-    with ctxm.Pool(min(jobs, len(cases))) as pool:
-        out = pool.map(_exec_safe, cases, chunksize=max(1, len(cases) // (jobs * 8)))
+    with mp.get_context("fork").Pool(min(jobs, len(cases))) as pool:
+        out = pool.map_async(_exec_safe, cases, chunksize=max(1, len(cases) // (jobs * 8))).get(timeout=2400)
     for c, r in zip(cases, out):
         if "error" in r:
             raise RuntimeError(f"case {c} could not be executed: {r['error']}")
     return out
 
 
-def correspond_scenario(ctx, name, cases):
-    p = prepare(name)
-    jobs = int(os.environ.get("C04_JOBS", "0")) or min(12, os.cpu_count() or 4)
-    t0 = time.time()
-    results = run_cases(cases, jobs)
-    rows = []
-    for case, res in zip(cases, results):
-        for r in build_rows(case, res, ctx.driver):
-            rows.append(dict(case, datakey=r["key"], impl=r["impl"], op=r["op"], faulted=r["faulted"]))
-    by_case = {}
-    for case, res in zip(cases, results):
-        by_case[case_id(case)] = oracle_case(case, res)
-    seen = set()
-
-    def oracle(row, out):
-        cid = case_id(row)
-        if cid in seen:
-            return None
-        seen.add(cid)
-        return by_case[cid]
-
-    def post(mo):
-        if p["scen"]["det"]:
-            return mo
-        parts = []
-        for rep in mo.split(" ; "):
-            head, _, ops = rep.partition(" ops=")
-            if ops not in ("*", "-", ""):
-                ops = ",".join(group_roles(ops.split(",")))
-            parts.append(head + " ops=" + ops)
-        return " ; ".join(parts)
-
-    def to_op(row):
-        return row["op"]
-
-    def model_view(row, mo):
-        return mo
-
-    scen = p["scen"]
-    ctx.correspond(
-        f"fault/{name}", rows, lambda row: row["impl"], to_op, oracle,
-        nontrivial=lambda row, out: row["op"] is not None,
-        model_post=lambda mo: drop_pre(post(mo)),
-        exhaustive=True,
-        rule=(f"scenario {name}: graph {'->'.join(scen['keys'])}, processor {scen['proc']}, max_workers {scen['workers']}, rechunk {scen['rechunk']}, "
-              f"variant {scen['variant']}, prepared by {len(scen['pre'])} faulted attempt(s), rmtree order {scen['rm']}; every FS operation of the "
-              "attempt x {exception, death before, death after}; one row per (fault, data key): op list, listing, find, load, caller outcome, then the same after a clean retry"),
-        branch=lambda row, out: f"{row['kind']}:{row['op_name'] if 'op_name' in row else row['op'] and 'x'}" if False else f"{row['kind']}:{row['role'][0]}:{out.split(' ')[0]}",
-    )
-    ctx.note(f"{name}: {len(cases)} fault runs, {len(rows)} rows, {time.time() - t0:.0f}s")
-
-
-_NPRE = {}
-
-
-def drop_pre(mo):
-    return mo
-
-
 def case_id(c):
     return json.dumps([c["scen"], c["key"], c["role"], c["j"], c["kind"], c.get("second")], sort_keys=True)
 
 
+def strip_pre(n_pre):
+    def f(mo):
+        return " ; ".join(mo.split(" ; ")[n_pre:])
+    return f
+
+
+def correspond_scenario(ctx, name, cases):
+    p = prepare(name)
+    scen = p["scen"]
+    jobs = int(os.environ.get("C04_JOBS", "0")) or min(12, os.cpu_count() or 4)
+    t0 = time.time()
+    results = run_cases(cases, jobs)
+    t1 = time.time()
+    rows, verdict = [], {}
+    for case, res in zip(cases, results):
+        verdict[case_id(case)] = oracle_case(case, res)
+        for i, r in enumerate(build_rows(case, res, ctx.driver)):
+            rows.append(dict(case, datakey=r["key"], impl=r["impl"], model_op=r["op"], n_pre=r["n_pre"], first=(i == 0)))
+    n_pre = {r["n_pre"] for r in rows if r["model_op"]}
+    if len(n_pre) > 1:
+        raise RuntimeError(f"scenario {name}: keys have different numbers of preparing attempts: {n_pre}")
+
+    def oracle(row, out):
+        return verdict[case_id(row)] if row["first"] else None      # one verdict per fault run, attached to its first row
+
+    ctx.correspond(
+        f"fault/{name}", rows, lambda row: row["impl"], lambda row: row["model_op"], oracle,
+        nontrivial=lambda row, out: row["model_op"] is not None and row["role"] != "R",
+        model_post=strip_pre(n_pre.pop() if n_pre else 0),
+        exhaustive=True,
+        rule=(f"scenario {name}: graph {'->'.join(scen['keys'])}, processor {scen['proc']}, max_workers {scen['workers']}, rechunk {scen['rechunk']}, "
+              f"forked savers {scen['forked']}, model variant {scen['variant']}, directory prepared by {len(scen['pre'])} faulted attempt(s), rmtree order "
+              f"{scen['rm']}; EVERY FS operation of the attempt x {{exception at, death before, death after}}; one row per (fault, data key): "
+              "operations issued, directory listing, find, load, caller's outcome, then the same after a clean retry; non-trivial = the fault "
+              "hit an operation of the save protocol"),
+        branch=lambda row, out: f"{row['kind']}:{'probe' if row['role'] == 'R' else row['op']}",
+    )
+    ctx.note(f"{name}: {len(cases)} fault runs ({t1 - t0:.0f}s on the real code), {len(rows)} rows compared")
+
+
+DOUBLE = ("st-plain", "st-broken-rechunk", "tm-broken", "st-stale-temp", "forked")
+
+
+def scenario_cases(ctx, p):
+    cases = fault_points(p)
+    if ctx.thorough and p["scen"]["name"] in DOUBLE:
+        # double faults: a sample of first faults, each followed by a fault somewhere in the retry
+        firsts = [c for c in cases if c["role"] != "R"]
+        ctx.rng.shuffle(firsts)
+        pool = [c for c in cases if c["role"] != "R"]
+        for c in firsts[:60]:
+            s2 = ctx.rng.choice(pool)
+            cases.append(dict(c, second=dict(key=s2["key"], role=s2["role"], j=s2["j"], kind=s2["kind"])))
+    return cases
+
+
 def run(ctx):
-    scens = ctx.pick(QUICK, THOROUGH)
     try:
-        for scen in scens:
+        for scen in ctx.pick(QUICK, THOROUGH):
             p = prepare(scen["name"])
-            cases = fault_points(p)
-            if ctx.thorough and scen["name"] in ("st-plain", "st-broken-rechunk", "tm-broken", "st-stale-temp"):
-                # double faults: a sample of first faults, each followed by a fault in the retry
-                firsts = [c for c in cases if c["role"] != "R"]
-                ctx.rng.shuffle(firsts)
-                for c in firsts[:40]:
-                    second = ctx.rng.choice([x for x in cases if x["role"] != "R"])
-                    cases.append(dict(c, second=dict(key=second["key"], role=second["role"], j=second["j"], kind=second["kind"])))
-            correspond_scenario(ctx, scen["name"], cases)
+            correspond_scenario(ctx, scen["name"], scenario_cases(ctx, p))
+    finally:
+        cleanup_prepared()
+
+
+def search(ctx):
+    """an obligation broke without a failing input: sweep the remaining scenarios with the oracle"""
+    try:
+        for scen in THOROUGH:
+            if f"fault/{scen['name']}" in ctx.components:
+                continue
+            p = prepare(scen["name"])
+            correspond_scenario(ctx, scen["name"], fault_points(p))
     finally:
         cleanup_prepared()
 
@@ -789,7 +823,8 @@ def replay(ctx, body):
     try:
         res = execute(case)
         for i, st in enumerate(res["steps"]):
-            print(f"attempt {i}: fault={st['fault']} outcome={st['outcome']} state=" + json.dumps({k: {x: v[x] for x in ('find', 'load', 'ls')} for k, v in st["after"].items()}))
+            print(f"attempt {i}: fault={st['fault']} outcome={st['outcome']} state="
+                  + json.dumps({k: {x: v[x] for x in ("find", "load", "ls")} for k, v in st["after"].items()}))
         return oracle_case(case, res)
     finally:
         cleanup_prepared()
